@@ -296,6 +296,20 @@ theorem sortRights_asc (l : List RightRow) : (sortRights false l).Pairwise fun a
     (by intro a b c; simp only [decide_eq_true_eq]; omega) l
   exact this.imp (by intro a b h; simpa using h)
 
+theorem readUsers_perm (nf : Bool) (l : List UserRow) : (readUsers nf l).Perm l :=
+  (sortUsers_perm nf _).trans (sortBy_perm _ l)
+
+theorem readRights_perm (nf : Bool) (l : List RightRow) : (readRights nf l).Perm l :=
+  (sortRights_perm nf _).trans (sortBy_perm _ l)
+
+theorem readUsers_asc (l : List UserRow) : (readUsers false l).Pairwise fun a b => a.date ≤ b.date :=
+  sortUsers_asc _
+
+theorem readRights_asc (l : List RightRow) : (readRights false l).Pairwise fun a b => a.date ≤ b.date :=
+  sortRights_asc _
+
+theorem groupsByUid_perm (rr : RoomRow) : (groupsByUid rr).groups.Perm rr.groups := sortBy_perm _ _
+
 theorem userWF_of_asc {l : List UserRow} (h : l.Pairwise fun a b => a.date ≤ b.date) :
     UserWF (l.map UserRow.toUser) := by
   unfold UserWF GWF
@@ -356,8 +370,8 @@ theorem parseRoom_of_wf {raw : Bool} {rr : RoomRow} (hn : (rr.groups.map (·.gid
   exact parseGroups_of_wf raw _ rr.groups (by simpa using hn) hg
 
 theorem sortGroup_asc_ordered (raw : Bool) (g : GroupRow) : GroupOrdered raw (sortGroup false g) :=
-  ⟨rightWF_of_asc (sortRights_asc g.rights), userWF_of_asc (sortUsers_asc g.users),
-   userWF_of_asc (sortUsers_asc g.userAdmins)⟩
+  ⟨rightWF_of_asc (readRights_asc g.rights), userWF_of_asc (readUsers_asc g.users),
+   userWF_of_asc (readUsers_asc g.userAdmins)⟩
 
 /-- **replay in ascending date order always succeeds** -/
 theorem parseRoom_sorted (raw : Bool) (rr : RoomRow) (hn : (rr.groups.map (·.gid)).Nodup) :
@@ -368,7 +382,7 @@ theorem parseRoom_sorted (raw : Bool) (rr : RoomRow) (hn : (rr.groups.map (·.gi
       apply List.map_congr_left
       intro g _; rfl
     rw [this]; exact hn
-  · exact userWF_of_asc (sortUsers_asc rr.admins)
+  · exact userWF_of_asc (readUsers_asc rr.admins)
   · intro g hg
     simp only [exportRoom, List.mem_map] at hg
     obtain ⟨g0, _, rfl⟩ := hg
@@ -424,15 +438,32 @@ theorem SameRows.symm {x y : RoomRow} (h : SameRows x y) : SameRows y x :=
    fun g hg => by obtain ⟨k, hk, e, a, b, c⟩ := h.fwd g hg; exact ⟨k, hk, e.symm, a.symm, b.symm, c.symm⟩⟩
 
 theorem exportRoom_sameRows (df : Defects) (rr : RoomRow) : SameRows (exportRoom df rr) rr := by
-  refine ⟨sortUsers_perm _ _, ?_, ?_⟩
+  refine ⟨readUsers_perm _ _, ?_, ?_⟩
   · intro g hg
     simp only [exportRoom, List.mem_map] at hg
     obtain ⟨g0, hg0, rfl⟩ := hg
-    exact ⟨g0, hg0, rfl, sortUsers_perm _ _, sortUsers_perm _ _, sortRights_perm _ _⟩
+    exact ⟨g0, hg0, rfl, readUsers_perm _ _, readUsers_perm _ _, readRights_perm _ _⟩
   · intro h hh
-    refine ⟨sortGroup df.newestFirstReplay h, ?_, rfl, sortUsers_perm _ _, sortUsers_perm _ _, sortRights_perm _ _⟩
+    refine ⟨sortGroup df.newestFirstReplay h, ?_, rfl, readUsers_perm _ _, readUsers_perm _ _, readRights_perm _ _⟩
     simp only [exportRoom, List.mem_map]
     exact ⟨h, hh, rfl⟩
+
+/-- reordering the groups does not change the rows -/
+theorem sameRows_of_groups_perm {x y : RoomRow} (ha : x.admins = y.admins) (hg : x.groups.Perm y.groups) :
+    SameRows x y :=
+  ⟨by rw [ha], fun g hg' => ⟨g, hg.mem_iff.mp hg', rfl, .refl _, .refl _, .refl _⟩,
+   fun h hh => ⟨h, hg.mem_iff.mpr hh, rfl, .refl _, .refl _, .refl _⟩⟩
+
+theorem SameRows.trans {x y z : RoomRow} (h1 : SameRows x y) (h2 : SameRows y z) : SameRows x z := by
+  refine ⟨h1.admins.trans h2.admins, ?_, ?_⟩
+  · intro g hg
+    obtain ⟨h, hh, e1, a1, b1, c1⟩ := h1.fwd g hg
+    obtain ⟨k, hk, e2, a2, b2, c2⟩ := h2.fwd h hh
+    exact ⟨k, hk, e2.trans e1, a1.trans a2, b1.trans b2, c1.trans c2⟩
+  · intro k hk
+    obtain ⟨h, hh, e2, a2, b2, c2⟩ := h2.bwd k hk
+    obtain ⟨g, hg, e1, a1, b1, c1⟩ := h1.bwd h hh
+    exact ⟨g, hg, e2.trans e1, a1.trans a2, b1.trans b2, c1.trans c2⟩
 
 theorem UserFunc.perm {l₁ l₂ : List User} (hp : l₁.Perm l₂) (h : UserFunc l₁) : UserFunc l₂ :=
   fun u hu v hv => h u (hp.mem_iff.mpr hu) v (hp.mem_iff.mpr hv)
